@@ -194,7 +194,7 @@ fn judge(ctx: &mut Ctx, f: &FnInfo, scenario: &str, res: &Val, lo: Option<i128>,
 }
 
 fn check_opt_selector(ctx: &mut Ctx, f: &FnInfo, consts: &dyn Fn(&str) -> Option<Val>, rp: &[i128], typed: &[(String, String)]) {
-    let ev = Evaluator { consts, call_hook: &crate::eval::no_hook };
+    let ev = Evaluator { consts, call_hook: &crate::eval::no_hook, inline: None };
     let mut n = 0;
     let mut results: BTreeMap<String, usize> = BTreeMap::new();
     let mut opts: Vec<Option<i128>> = vec![None];
@@ -266,7 +266,7 @@ fn check_constraint_selector(ctx: &mut Ctx, f: &FnInfo, consts: &dyn Fn(&str) ->
             _ => None,
         }
     };
-    let ev = Evaluator { consts, call_hook: &hook };
+    let ev = Evaluator { consts, call_hook: &hook, inline: None };
     let mut bounds: Vec<Option<Option<i128>>> = vec![None, Some(None)];
     bounds.extend(rp.iter().map(|x| Some(Some(*x))));
     let mut scenarios: Vec<Shape> = vec![Shape::Neither];
@@ -313,7 +313,7 @@ fn check_constraint_selector(ctx: &mut Ctx, f: &FnInfo, consts: &dyn Fn(&str) ->
 
 fn lub(m: &Model, ctx: &mut Ctx) {
     let consts = const_resolver(m);
-    let ev = Evaluator { consts: &consts, call_hook: &crate::eval::no_hook };
+    let ev = Evaluator { consts: &consts, call_hook: &crate::eval::no_hook, inline: None };
     let variants = match m.find_enum("IntegerType") {
         Ok(e) => e.variants.clone(),
         Err(e) => {
@@ -413,7 +413,7 @@ fn literal(m: &Model, ctx: &mut Ctx) {
             if tok(&mt.expr) == "integer_type" {
                 found = true;
                 let consts = const_resolver(m);
-                let ev = Evaluator { consts: &consts, call_hook: &crate::eval::no_hook };
+                let ev = Evaluator { consts: &consts, call_hook: &crate::eval::no_hook, inline: None };
                 let variants = m.find_enum("IntegerType").map(|e| e.variants.clone()).unwrap_or_default();
                 for v in &variants {
                     ctx.oblige("C06.literal", &format!("render({})", v), true);
